@@ -27,7 +27,7 @@ CHECKS = {
    note="Bounds: 1..2 (quick) / 1..3 (thorough) collective rows; histogrammed collectives 1..2 / 1..3 cycles with 1..2 / 1..3 classes given as edge list, IntervalIndex, IntervalArray (class limits concrete: IntervalIndex is float64-backed), number of bins 1..3 with two concrete rows spanning the data and 1 / 2 symbolic rows, repeated index labels; re-binning over binnings with 1..2 / 1..4 classes on the grid {0,0.5,1,2,3,4}. Which of two adjacent classes receives a cycle exactly on their common limit is left open (as the property does). Totals of re-binning compared with 1e-12 relative tolerance because overlap fractions are float constants. Two defects found by this check were repaired (73f5732, ee39cfd).",
    design="6 C14"),
  "C12": dict(
-   text="Bounded exhaustive symbolic check of the real mean-stress transformation code (HaighDiagram.transform, _SegmentTransformer, fkm_goodman, five_segment_correction, collective and matrix accessors): amplitude > 0 and mean symbolic, so every sector of the Haigh plane and every border (R = 0, +-inf, 1, R12, R23) is a path. FKM-Goodman result == geometric iso-damage walk oracle; for FKM-Goodman and five-segment diagrams: T_R2 o T_R1 == T_R2, idempotence, cycle on the target ray unchanged, non-decreasing in amplitude; plain function == collective accessor (range/mean and from/to); matrix accessor conserves the symbolic cycle counts.",
+   text="Bounded exhaustive symbolic check of the real mean-stress transformation code (HaighDiagram.transform, _SegmentTransformer, fkm_goodman, five_segment_correction, collective and matrix accessors): amplitude > 0 and mean symbolic, so every sector of the Haigh plane and every border (R = 0, +-inf, 1, R12, R23) is a path. FKM-Goodman result == geometric iso-damage walk oracle; for FKM-Goodman and five-segment diagrams: T_R2 o T_R1 == T_R2, idempotence, cycle on the target ray unchanged, non-decreasing in amplitude; plain function == collective accessor (range/mean and from/to); matrix accessor conserves the symbolic cycle counts and places every class in the result class that contains its transformed range (from/to, range/mean, rows shuffled / sparse, and with a further node index level, per node).",
    note="Mean stress sensitivities and R_goal are concrete and enumerated (5-6 (M,M2) pairs incl. M2 = 0 and M2 = M, 2-3 five-segment sets, 10 targets incl. -inf and R > 1); restricted to cycles whose iso-damage amplitude stays positive. Value claims carry 1e-12 relative tolerance. Floats as reals; float constants stand for the simplest rational that rounds to them.",
    design="6 C12"),
  "C11": dict(
@@ -51,7 +51,7 @@ CHECKS = {
    note="Bound: 2 and 4 reversals per period (proper reversal sequences incl. start from zero and junction; everything else is C04), 1..3 points with factors 1/2, 2, 3. Notch law = odd extensions of positive increasing uninterpreted functions (contract stub); concrete replays use an analytic law. Integer loads. The oracle was written from the same reading of the guideline as the code. Multi-point running strain extremes are not compared (decided on the first node; equality per node needs Masing/convexity). Chunked multi-point cases: 4 (quick) / 4..5 (thorough) integer samples, one or two chunk borders, load steps numbered consecutively across the calls; both HCM passes on 3 (quick) / 3..4 (thorough) arbitrary samples with load step labels in any order. Histories that re-use load step labels across calls are outside (the original tree fails on them in several places, see DESIGN.md section 8). A defect found by this check was repaired (be8c19e, follow-up 0421c51).",
    design="6 C05"),
  "C08": dict(
-   text="Symbolic check of the real WoehlerCurve accessor in log-domain arithmetic (every positive quantity is 10**e with e a real symbol, so the power laws are linear arithmetic on exponents): cycles/load mutual inverses across the knee and for k_2 = inf, knee value, slopes k_1 above and k_2 below the endurance limit, non-increasing in load, Miner variants change only k_2 and leave the original untouched, cycles grow with the failure probability, N_90/N_10 = TN and SD_90/SD_10 = TS, group law and identity of transform_to_failure_probability, std <-> scatter range inverses with T = 10**(2 z_0.9 s), array and Series input == scalar calls.",
+   text="Symbolic check of the real WoehlerCurve accessor in log-domain arithmetic (every positive quantity is 10**e with e a real symbol, so the power laws are linear arithmetic on exponents): cycles/load mutual inverses across the knee and for k_2 = inf, knee value, slopes k_1 above and k_2 below the endurance limit, non-increasing in load, Miner variants change only k_2 (also for curves given for another failure probability: every other key incl. failure_probability kept, cycles above the knee equal the original's) and leave the original untouched, cycles grow with the failure probability, N_90/N_10 = TN and SD_90/SD_10 = TS, group law and identity of transform_to_failure_probability, std <-> scatter range inverses with T = 10**(2 z_0.9 s), array and Series input == scalar calls.",
    note="SD, ND, TN, TS, load, cycles symbolic in [1e-12, 1e12] (scatter in [1, 1e3]); slopes k_1 in {3,5,7.5}, k_2 in {k_1, 2k_1-1, k_1+2, inf} (thorough additionally symbolic 1 < k_1 <= 20, k_1 <= k_2 <= k_1+20) and failure probabilities concrete; scipy.stats.norm.ppf runs for real. Clauses marked ~ carry a relative tolerance of 1e-9 on the exponent (the code uses fl(-1/k) and the literal 0.39015207303618954). np/pd facades (self-tested). Indexed curves (broadcasting) are C13.",
    design="6 C08"),
  "C09": dict(
